@@ -237,7 +237,7 @@ fn oracle_lax(inp: &PV, out: &PV) -> T {
     let fam = tm::as_const(inp.at(1).t()).unwrap();
     let r = out.at(0).lax();
     let want = substitute(super::c13::sem(fam), &strict_of_lax(f));
-    tm::and(vec![tm::bconst(r.quot.is_empty()), iso(&want, &plain_of_lax(r))])
+    tm::and(vec![tm::bconst(r.quot.is_empty()), iso(&want, &plain_of_lax(r)), raw_lax_eq(out.at(1).lax(), r)])
 }
 pub fn lax_jobs(tier: Tier) -> Vec<Job> {
     let per_job = Duration::from_secs(if tier == Tier::Quick { 90 } else { 600 });
